@@ -122,6 +122,11 @@ pub fn event_rec(e: &Event) -> EventRec {
 
 /// One line per event, the form hashed for determinism comparisons and shown in replay files.
 pub fn event_line(e: &Event) -> String {
+    if e.path == "<stderr>" {
+        // what a process writes on stderr may contain its own pid / thread id (Rust's panic
+        // message does), so the length is not a function of the seed: only success is logged
+        return format!("{} t{} {} {} {}{}", e.seq, e.tid, e.call.name(), e.path, if e.ret >= 0 { "ok" } else { "failed" }, if e.rule != -1 { format!(" rule={}", e.rule) } else { String::new() });
+    }
     format!(
         "{} t{} {} {} req={} ret={}{}{}",
         e.seq,
